@@ -347,6 +347,36 @@ def run_case(case):
                        rsec=rs2["rsec"], tsec=rs2["tsec"]))
         if res != "fail":
             break
+    # session: the next call on the SAME tag object after a completed one (read -> format(wipe) -> write)
+    th = case.get("then")
+    if th and res == "ok":
+        nd2 = tag.ndef                       # what an application does; may read the tag anew (reads only)
+        if nd2 is None:
+            raise HarnessError("no NDEF after format: %r" % case)
+        oldm = list(lay["old"])
+        if th["msg"] == "same":              # the very message that was on the tag before the format
+            msg2 = oldm
+        elif th["msg"] == "prefix":          # same length, first half identical, second half new
+            msg2 = oldm[:len(oldm) // 2] + new_message(case["mseed"], len(oldm))[len(oldm) // 2:]
+        else:
+            msg2 = new_message(case["mseed"], th["n"])
+        tm, rs = reader_state(tag, sim, nd2)
+        skipn2 = len([a for a in nd2._skip_bytes if a < len(sim.mem)])
+        ncmd0 = sum(1 for e in ev if e["a"] == "Cmd")
+        ev.append(dict(a="Begin", op="write", msg=msg2, wipe=256, off=nd2._ndef_tlv_offset, cap=nd2.capacity, nskip=skipn2,
+                       retry=True, cache=list(tm._data_in_cache), shadow=list(tm._data_from_tag), **rs))
+        res, exc = "ok", ""
+        try:
+            nd2.octets = bytes(bytearray(msg2))
+        except ValueError:
+            res, exc = "reject", "ValueError"
+        except nfc.tag.TagCommandError as e:
+            res, exc = "crash", type(e).__name__
+        except Exception as e:
+            res, exc = "crash", type(e).__name__
+        tm2, rs2 = reader_state(tag, sim, tag._ndef)
+        ev.append(dict(a="Ret", res=res, exc=exc, n=sum(1 for e in ev if e["a"] == "Cmd") - ncmd0, mem=list(sim.mem),
+                       shadow=[], rsec=rs2["rsec"], tsec=rs2["tsec"]))
     sim.on_write = sim.on_sel = sim.on_fault = None
     ev.append(fresh_view(sim))
     const = dict(kind=lay["kind"], unit=lay["unit"], fmt=lay["fmt"], mem0=list(lay["mem0"]), ro=lay["ro"],
@@ -471,6 +501,25 @@ def cases_c01(seed, quick):
     ms = t2_desc(0xEA, 2, (), 40, "rnd", extra=32)
     for n in ((1200,) if quick else (1000, 1200, 1400, 1866)):
         cases.append(dict(id="ms.%d" % n, lay=ms, lseed=seed * 1000 + 400, op="write", n=n, mseed=seed, cut=None))
+    # ... and the old message already reaches into sector 1: reading it leaves the tag (and the object) in sector 1
+    ms1 = t2_desc(0xEA, 1, (), 1100, "rnd", extra=32)
+    for n in ((30, 1100) if quick else (0, 30, 1000, 1100, 1300, 1866)):
+        cases.append(dict(id="ms1.%d" % n, lay=ms1, lseed=seed * 1000 + 401, op="write", n=n, mseed=seed, cut=None))
+    # one session on one tag object: read (tag.ndef) -> format(wipe) -> write a message that shares bytes with the
+    # old one -> fresh read
+    sl = [("s-topaz", t1_desc(False, 120, 0x48, 0, (), 40, "rnd")), ("s-topaz512", t1_desc(True, 512, 0x4C, 0, (), 300, "rnd", canonical512=True)),
+          ("s-t2", t2_desc(18, 0, (), 60, "rnd")), ("s-t2ms", ms)]
+    if not quick:
+        sl += [("s-topaz512s", t1_desc(True, 512, 0x4C, 0, (), 60, "rnd", canonical512=True)), ("s-t2b", t2_desc(0x3E, 3, (), 300, "rnd"))]
+    for j, (name, desc) in enumerate(sl):
+        for wipe in ((None, 0x5A) if quick else (None, 0x00, 0xFF, 0x5A)):
+            for m in (("same", "prefix") if wipe is not None or not quick else ("same",)):
+                cases.append(dict(id="%s.%s.%s" % (name, "n" if wipe is None else "%02x" % wipe, m), lay=desc,
+                                  lseed=seed * 1000 + 430 + j, op="format", wipe=wipe, mseed=seed + j, cut=None,
+                                  then=dict(msg=m)))
+        if not quick:
+            cases.append(dict(id="%s.5a.new" % name, lay=desc, lseed=seed * 1000 + 430 + j, op="format", wipe=0x5A,
+                              mseed=seed + j, cut=None, then=dict(msg="new", n=17)))
     # one command fails with a tag error, the application repeats the assignment on the same tag object
     fl = [("f-t1s", t1_desc(False, 120, 0x48, 0, (), 23, "rnd"), 30), ("f-t1d", t1_desc(True, 512, 0x00, 3, (), 20, "rnd"), 300),
           ("f-t2", t2_desc(12, 1, (), 20, "rnd"), 40)]
@@ -597,6 +646,16 @@ def cases_c02(seed, quick):
             cases.append(dict(id="c%d.%d.full" % (li, n), cut=None, **base))
             for k in sorted(cuts):
                 cases.append(dict(id="c%d.%d.k%d" % (li, n, k), cut=k, **base))
+    # two-sector Type 2 Tag whose OLD message reaches into sector 1: the read leaves tag and tag object in sector 1,
+    # the write starts with the "length = 0" page in sector 0
+    ms1 = t2_desc(0xEA, 1, (), 1100, "rnd", extra=32)
+    for n in ((30, 1100) if quick else (1, 30, 1000, 1100, 1200)):
+        base = dict(lay=ms1, lseed=seed * 1000 + 590, op="write", n=n, mseed=seed)
+        total, _ = count_cmds(dict(id="x", cut=None, **base))
+        cuts = sorted({0, 1, 2, total // 2, total - 1, total} | ({rnd.randrange(total + 1) for _ in range(12)} if not quick else set()))
+        cases.append(dict(id="ms1.%d.full" % n, cut=None, **base))
+        for k in cuts:
+            cases.append(dict(id="ms1.%d.k%d" % (n, k), cut=k, **base))
     # one write command is lost (tag error), the application repeats the assignment on the SAME tag object, and the
     # tag leaves the field at every position of the repeated write
     fl = [("f-t1s", t1_desc(False, 120, 0x48, 0, (), 23, "rnd"), 30, True),         # Topaz, byte-wise writes
@@ -939,8 +998,8 @@ def mc_compute(pid, quick):
     c = pid.lower()
     cfg = "MC_TlvTag_%s%s.cfg" % (c, "q" if quick else "t")
     r = tlc.run("MC_TlvTag.tla", cfg, pid, workers=16, timeout=600 if quick else 1800)
-    need = {"C01": ["W_DoneLong", "W_DoneCap", "W_Rejected", "W_Crash", "W_SkipInside", "W_OddLock", "W_RoomEdge", "W_SelDone", "W_RetryDone"],
-            "C02": ["W_CutNew", "W_CutOld", "W_CutEmpty", "W_Straddle", "W_Mixture", "W_RetryCut", "W_FaultLen0"],
+    need = {"C01": ["W_DoneLong", "W_DoneCap", "W_Rejected", "W_Crash", "W_SkipInside", "W_OddLock", "W_RoomEdge", "W_SelDone", "W_RetryDone", "W_SessionDone"],
+            "C02": ["W_CutNew", "W_CutOld", "W_CutEmpty", "W_Straddle", "W_Mixture", "W_RetryCut", "W_FaultLen0", "W_InSector1"],
             "C03": ["W_SkipInside", "W_SkipAfter", "W_SkipBeyond", "W_FormatWipe", "W_Escape", "W_OddLock", "W_Mem256",
                     "W_Exp2", "W_Exp3", "W_Exp4", "W_RoomEdge", "W_FaultSel", "W_SelDone"]}[pid]
     hit, _ = tlc.witnesses("MC_TlvTag.tla", "MC_TlvTag_%sw.cfg" % c, pid, need, timeout=600, workers=2)
